@@ -1,7 +1,7 @@
 ------------------------------ MODULE Emit_C10 ------------------------------
 EXTENDS TMC, Json, IOUtils, SequencesExt
 CONSTANT DEEP     \* thorough tier: a finer lattice in x and in rho = sqrt(1 + 4 x^2 M^2 / Q2) (rational by construction)
-Xs == IF DEEP THEN {R(1, 8), R(1, 4), R(2, 5), R(1, 2), R(3, 5), R(3, 4), R(7, 8)} ELSE {R(1, 4), R(2, 5), R(3, 4)}
+Xs == IF DEEP THEN {R(1, 8), R(1, 4), R(2, 5), R(1, 2), R(3, 5), R(3, 4), R(7, 8), R(19, 20)} ELSE {R(1, 4), R(2, 5), R(3, 4), R(19, 20)}      \* (19/20: xi in the LAST interval of the grid for the smaller rho)
 Rhos == IF DEEP THEN {R(9, 8), R(5, 4), R(3, 2), RI(2), RI(3)} ELSE {R(9, 8), R(5, 4), R(3, 2)}
 Obls == {[kind |-> k, mode |-> m, p |-> [x |-> x, rho |-> r], mu |-> Mu([x |-> x, rho |-> r]), xi |-> Xi([x |-> x, rho |-> r]),
           terms |-> Formula(k, m, [x |-> x, rho |-> r])] : k \in Kinds, m \in Modes, x \in Xs, r \in Rhos}
